@@ -122,7 +122,7 @@ func good(x, y Coords) bool { return x.File() == y.File() && x.Begin() == y.Begi
 
 func (c *Ctx) rulePositionNeedsFile(rule string) {
 	r := c.R
-	r.Rule(rule, "no equality test between the byte positions (Begin()) of two different directive.Coords values unless the same condition also compares their File(): an offset identifies a place only within one file, and INCLUDE puts several files into one document (two bodies of different files may start at the same offset)", 1)
+	r.Rule(rule, "no equality test between the byte positions (Begin()) of two different directive.Coords values unless the same condition also compares their File(), and no map keyed by Begin() or String() of a Coords: an offset identifies a place only within one file, and INCLUDE puts several files into one document (two bodies of different files may start at the same offset)", 1)
 	if why := positionSelfTest(); why != "" {
 		r.Undecided(rule, "self-test", why, "")
 		return
@@ -137,7 +137,56 @@ func (c *Ctx) rulePositionNeedsFile(rule string) {
 			r.Bad(rule, f.Name()+" | "+exprString(be), "two places are taken for the same one because their byte offsets are equal, without looking at the files: true in a single-file document, false as soon as the two come from different files of an INCLUDE tree", c.pos(be.Pos()))
 		}
 	}
+	// the same mistake with a table: a map keyed by Begin() or String() of a Coords (String prints "[begin:end]")
+	for _, f := range c.libFns() {
+		if strings.HasSuffix(f.Pkg.Fset.Position(f.Decl.Pos()).Filename, "_gen.go") {
+			continue
+		}
+		pk := f.Pkg
+		ast.Inspect(f.Decl.Body, func(nd ast.Node) bool {
+			ix, ok := nd.(*ast.IndexExpr)
+			if !ok {
+				return true
+			}
+			if _, isMap := pk.TypesInfo.TypeOf(ix.X).Underlying().(*types.Map); !isMap {
+				return true
+			}
+			key := unalias(f, ix.Index)
+			// a conversion around it (string(x), T(x)) changes nothing
+			for {
+				if cv, ok := key.(*ast.CallExpr); ok && len(cv.Args) == 1 {
+					if tv, ok := pk.TypesInfo.Types[cv.Fun]; ok && tv.IsType() {
+						key = unalias(f, cv.Args[0])
+						continue
+					}
+				}
+				break
+			}
+			call, ok := key.(*ast.CallExpr)
+			if !ok || len(call.Args) != 0 {
+				return true
+			}
+			sel, ok := ast.Unparen(call.Fun).(*ast.SelectorExpr)
+			if !ok || (sel.Sel.Name != "Begin" && sel.Sel.Name != "String") {
+				return true
+			}
+			t := pk.TypesInfo.TypeOf(sel.X)
+			if t == nil {
+				return true
+			}
+			if p, isP := t.(*types.Pointer); isP {
+				t = p.Elem()
+			}
+			named, isN := t.(*types.Named)
+			if !isN || named.Obj().Name() != "Coords" || named.Obj().Pkg() == nil || named.Obj().Pkg().Name() != "directive" {
+				return true
+			}
+			n++
+			r.Bad(rule, f.Name()+" | map keyed by "+exprString(key), "a table is keyed by the byte position of a body ("+sel.Sel.Name+"() of its Coords) without the file: two bodies of different files of an INCLUDE tree that lie at the same offsets share one entry, so the second is taken for the first", c.pos(ix.Pos()))
+			return true
+		})
+	}
 	if n == 0 {
-		r.Ok(rule, "library", "no position-only comparison of two Coords (the matcher finds the one in its built-in example)", "")
+		r.Ok(rule, "library", "no position-only comparison of two Coords and no table keyed by a position alone (the matcher finds the comparison in its built-in example)", "")
 	}
 }
